@@ -24,7 +24,7 @@ from extract_facts import Unsupported, parse, zs, func_node
 
 # calls that have no effect on the modelled state
 PURE_CALLS = {'len', 'time.monotonic', 'hasattr', 'cast', 'str', 'int', 'partial'}
-ROOTS = ('self', 'stream', 'value', 'task', '_stream', 'proc', 'log', 'events', 'event')
+ROOTS = ('self', 'stream', 'value', 'task', '_stream', 'proc', 'log', 'events', 'event', 'release_stream')
 
 
 def u(n):
@@ -238,6 +238,8 @@ def generate(repo):
     rows.append(('Connection.close', shape(pr, 'Connection', 'close')))
     rows.append(('Stream.__terminated__', shape(pr, 'Stream', '__terminated__')))
     rows.append(('Stream.__ended__', shape(pr, 'Stream', '__ended__')))
+    rows.append(('Stream.closable', shape(pr, 'Stream', 'closable')))
+    rows.append(('Stream.reset_nowait', shape(pr, 'Stream', 'reset_nowait')))
     rows.append(('H2Protocol.data_received', shape(pr, 'H2Protocol', 'data_received')))
     rows.append(('H2Protocol.connection_lost', shape(pr, 'H2Protocol', 'connection_lost')))
     for f in ('accept', 'cancel', 'close'):
